@@ -194,8 +194,9 @@ theorem end_to_end_narrow_at (T : Tables) (ctx : Ctx) (hT : TablesOK T)
     members" (`narrowB s e`, a test on the STATE) in place of `hnodupB` (a test on the keys): on
     `Generator()` with the tables of the current source, for every form tree `t` that renders the
     element state `e` of schema `s` and meets `hypsN`, what a browser posts for the unchanged form, read
-    back with `from_flat`, is `prS e`.  The hypothesis is needed: `exArr2_differs`
-    (Proofs/EndToEndExamples.lean). -/
+    back with `from_flat`, is `prS e`.  `narrowB` is what C02's `order_free` needs (`exArr2_only_narrow_fails`: with two members
+    `HNodup` fails and the order of the pairs IS the order of the members); the conclusion itself
+    survives there (`exArr2_still_rebuilds`) — the per-key stable composition, not proved. -/
 theorem end_to_end_narrow_partial (env : Env) (s : Schema) (e : Elem) (t : FormTree)
     (h : hypsN Tables.current env s e t = true) (ps : List Pair)
     (hpost : browserSubmit (seenOf Tables.current freshGen.ctx) (some 0) (renderForm [] t) = .ok ps) :
